@@ -32,26 +32,30 @@ FLAT_MODULES = ("utils", "data_gen", "solver", "tensor", "qslst", "decomp", "dec
                 "decomp.schur")
 
 PROBES = {
-    # name: (file relative to quatica/, text that identifies the line)
-    "gmres_lucky_breakdown": ("solver.py", "Lucky breakdown occurred"),
-    "gmres_lu_fallback": ("solver.py", "LU preconditioning failed"),
-    "gmres_lu_applied": ("solver.py", "Applied left LU preconditioner"),
-    "utri_zero_diag_inner": ("utils.py", 'print(f"U0({i},{i})=0'),
-    "utri_zero_diag_last": ("utils.py", 'print("U0(n,n)=0'),
-    "rsp_col_redraw": ("solver.py", "update failed, redrawing sketch"),
-    "rsp_ns_fallback_col": ("solver.py", "G_inv = self._invert_quat_small(G, ns_iters=16)"),
-    "rsp_ns_fallback_row": ("solver.py", "ZZ_H_inv = self._invert_quat_small(ZZ_H, ns_iters=16)"),
-    "hyb_skip_step": ("solver.py", "return X  # skip on failure"),
-    "hyb_ns_fallback": ("solver.py", "G_inv = RandomizedSketchProjectPseudoinverse._invert_quat_small(self, G, ns_iters=16)"),
-    "cgne_zero_dir": ("solver.py", "if Wn <= 1e-20:"),
-    "qsvd_wide_fallback": ("decomp/qsvd.py", "Q2_full, RR_full = qr_qua(Q2_temp)"),
-    "qsvd_wide_fallback_loop": ("decomp/qsvd.py", "Q1_full, _ = qr_qua(Q1_temp)"),
-    "qr_wide_branch": ("decomp/qsvd.py", "Qr_thin = Qr  # 4m"),
-    "pi_stagnation": ("utils.py", "Stagnation detected"),
-    "pi_converged": ("utils.py", "Converged at iteration"),
-    "pi_breakdown": ("utils.py", "Breakdown at iteration"),
-    "lu_zero_pivot": ("decomp/LU.py", "Zero pivot encountered"),
-    "ggivens_tiny": ("utils.py", "q4 = np.array([1, 0, 0, 0])"),
+    # name: (file relative to quatica/, text identifying an anchor line, line offset).
+    # The probed line must be one that executes whenever the branch is taken (not a
+    # print guarded by `verbose`).  Resolved by source text, never by line number; a
+    # probe that cannot be resolved is reported as unresolved, never as a failure.
+    "gmres_lucky_breakdown": ("solver.py", "Lucky breakdown occurred", -1),
+    "gmres_lu_fallback": ("solver.py", "LU preconditioning failed", -2),
+    "gmres_lu_applied": ("solver.py", "Applied left LU preconditioner", -1),
+    "gmres_exact_restart": ("solver.py", "empty = np.zeros((N, 0))", 0),
+    "utri_zero_diag_inner": ("utils.py", 'print(f"U0({i},{i})=0', 0),
+    "utri_zero_diag_last": ("utils.py", 'print("U0(n,n)=0', 0),
+    "rsp_col_redraw": ("solver.py", "update failed, redrawing sketch", -1),
+    "rsp_ns_fallback_col": ("solver.py", "G_inv = self._invert_quat_small(G, ns_iters=16)", 0),
+    "rsp_ns_fallback_row": ("solver.py", "ZZ_H_inv = self._invert_quat_small(ZZ_H, ns_iters=16)", 0),
+    "hyb_skip_step": ("solver.py", "return X  # skip on failure", 0),
+    "hyb_ns_fallback": ("solver.py", "G_inv = RandomizedSketchProjectPseudoinverse._invert_quat_small(self, G, ns_iters=16)", 0),
+    "cgne_zero_dir": ("solver.py", "if Wn <= 1e-20:", 1),
+    "qsvd_wide_fallback": ("decomp/qsvd.py", "Q2_full, RR_full = qr_qua(Q2_temp)", 0),
+    "qsvd_wide_fallback_loop": ("decomp/qsvd.py", "Q1_full, _ = qr_qua(Q1_temp)", 0),
+    "qr_wide_branch": ("decomp/qsvd.py", "Qr_thin = Qr  # 4m", 0),
+    "pi_stagnation": ("utils.py", "Stagnation detected", -1),
+    "pi_converged": ("utils.py", "Converged at iteration {iteration} with norm_diff", -2),
+    "pi_breakdown": ("utils.py", "Breakdown at iteration", -1),
+    "lu_zero_pivot": ("decomp/LU.py", "Zero pivot encountered", 0),
+    "ggivens_tiny": ("utils.py", "q4 = np.array([1, 0, 0, 0])", 0),
 }
 
 
@@ -117,7 +121,7 @@ class LineMonitor:
 
     def _resolve_probes(self):
         cache = {}
-        for name, (rel, text) in PROBES.items():
+        for name, (rel, text, off) in PROBES.items():
             path = os.path.join(self.pkgdir, rel)
             if path not in cache:
                 try:
@@ -130,7 +134,7 @@ class LineMonitor:
             if pos < 0:
                 self.unresolved.append(name)
                 continue
-            lineno = src.count("\n", 0, pos) + 1
+            lineno = src.count("\n", 0, pos) + 1 + off
             self.probe_lines.setdefault((rel, lineno), []).append(name)
 
     def _info(self, code):
@@ -717,6 +721,9 @@ def _sweep(self, i, step, hooks, viol):
     else:
         lo = int(step.get("from", 1))
         hi = int(step.get("to") or K)
+        if step.get("frac"):
+            lo = int(math.floor(step["frac"][0] * K)) + 1
+            hi = int(math.floor(step["frac"][1] * K))
         ks = list(range(lo, min(hi, K) + 1, int(step.get("stride", 1))))
     rec = {"i": i, "k": "sweep", "ok": "ret", "K": K, "n_sub": len(ks), "n_raised": 0,
            "n_returned": 0, "n_fired": 0, "probes": dict(brec["probes"]), "lines": K,
